@@ -47,11 +47,13 @@ CLAIMED = {
             "Not proved in Lean: removability of knots not inserted immediately before the removal (refinement; inserted knots after which other knots were inserted; 'whenever removable at all' needs uniqueness of B-spline coefficients) - oracle + correspondence; "
             "the Shape-level round trip and the evaluated-point corollary are stated for curves only (surfaces / volumes: net-level theorem + C04). Volumes: only removable knots generated (the code derives one removability flag from the first iso-curve)."),
     'C07': ("7/C07",
-            "Lean theorems (curves, span level): left_piece_coincides / right_piece_coincides - the two pieces as split_curve builds them (knot slices + extra copies of the parameter, net slices [:m-p+1] and [m-p:]) evaluate like the refined curve (which by C04 is the original) on every span left / right of the split parameter; normalized_piece_coincides - the normalisation of a piece's knot vector is the affine map of its domain; split at a domain end is rejected; decomposition of a Bezier shape returns it unchanged; window locality and affine invariance of A2.2. "
-            "The model (insertion to multiplicity p, knot/net slices, "
-            "normalisation of the pieces' knot vectors, decomposition loop with u-major order for 'uv') is tied to operations.split_curve / split_surface_u / split_surface_v / "
-            "decompose_curve / decompose_surface by exact correspondence; the exact oracle checks every piece against the original under the affine domain map, piece counts and order, input untouched.",
-            "Not proved: the end-to-end statement through splitDir / decomposeDir with the spans found by the search and the closed end parameter, and the surface case (oracle + correspondence); the span-level theorems compose with C04's insertion theorem."),
+            "Lean theorems, END TO END through the model functions the correspondence runs (splitDir, decomposeDir, decomposeUV), spans found by find_span_linear, closed end parameters included: split_curve_pieces_coincide (both pieces = original under the affine maps "
+            "of their domains, pieces clamped 0^{p+1}..1^{p+1}, sizes |P|+r+1), split_surface_u/v_pieces_coincide, decompose_curve_pieces / decompose_curve_count (exactly one Bezier piece per non-empty knot interval, in order, each coinciding with the original on its "
+            "interval; knot-vector length is enough fuel), decompose_surface_u/v/uv_pieces (one strip / patch per interval / pair of intervals, u-major order, coincidence on the rectangle); find_multiplicity_exact (tolerance separation => exact multiplicity); plus the "
+            "span-level theorems, rejection at domain ends, Bezier unchanged, window locality and affine invariance of A2.2. Hypotheses: degree >= 1, clamped well-formed knot vector in the split direction, inner multiplicity <= p, tolerance separation "
+            "(decomposition: pairwise, domain <= 1, other direction normalised). The model is tied to operations.split_curve / split_surface_u / split_surface_v / decompose_curve / decompose_surface by exact correspondence; the exact oracle checks every piece against "
+            "the original under the affine domain map, piece counts and order, input untouched; split parameters near knots probe the multiplicity tolerance.",
+            "Not proved: unclamped knot vectors, degree 0, inner multiplicity > p, decompose_surface with an un-normalised other-direction knot vector, volumes (oracle + correspondence only)."),
     'C02': ("7/C02",
             "Lean theorems: curve_derivatives_are_true_derivatives - entry k of the model of Curve.derivatives(u, order) (A3.3 + A3.4) equals the k-th iterated Polynomial.derivative of the span polynomial evaluated at u, "
             "for EVERY k <= order (zero above the degree), every degree, sorted knot vector, non-empty span, parameter, dimension (the derivative from the right at knots); the span polynomial evaluates to the curve point (ties to C01); "
